@@ -365,6 +365,30 @@ func isImmutableField(r *Run, a core.AddrPath) bool {
 
 // ---- A5: settings in atomic.Value ----
 
+// holdsAtomicField: the struct type has a sync/atomic typed field, directly or in a struct nested by value (a plain
+// record nested in the cache struct - an id, a name, a creation time - may be copied freely).
+func holdsAtomicField(n *types.Named, depth int) bool {
+	st, _ := n.Underlying().(*types.Struct)
+	if st == nil || depth > 3 {
+		return false
+	}
+	for j := 0; j < st.NumFields(); j++ {
+		ft := st.Field(j).Type()
+		if at, ok := ft.(*types.Array); ok {
+			ft = at.Elem()
+		}
+		if fn, ok := ft.(*types.Named); ok && fn.Obj().Pkg() != nil {
+			if fn.Obj().Pkg().Path() == "sync/atomic" {
+				return true
+			}
+			if _, isStruct := fn.Underlying().(*types.Struct); isStruct && holdsAtomicField(fn, depth+1) {
+				return true
+			}
+		}
+	}
+	return false
+}
+
 func c14Settings(r *Run, rep *core.Report, reach map[*ssa.Function]bool) {
 	for i := 0; i < 2; i++ {
 		ct := r.M.CacheT[i]
@@ -419,7 +443,7 @@ func c14Settings(r *Run, rep *core.Report, reach map[*ssa.Function]bool) {
 			core.Instrs(f, func(in ssa.Instruction) {
 				// whole-struct copies
 				if u, ok := in.(*ssa.UnOp); ok && u.Op.String() == "*" {
-					if n, ok := u.Type().(*types.Named); ok && n.Obj().Pkg() == ct.Obj().Pkg() && owners[n.Obj().Name()] != nil {
+					if n, ok := u.Type().(*types.Named); ok && n.Obj().Pkg() == ct.Obj().Pkg() && owners[n.Obj().Name()] != nil && holdsAtomicField(n, 0) {
 						rep.Fail("C14.A5", fn(f)+" copies "+n.Obj().Name(), r.P.InstrPos(in), "the object holding the atomic settings fields is copied by value")
 					}
 				}
